@@ -37,6 +37,8 @@ pub struct ItsBinder {
     pub ids: BTreeMap<String, [u8; 32]>,
     pub idcheck: String,
     pub wasm_hash: Option<BytesN<32>>,
+    /// (origin chain, message id, sender bytes, data bytes) of the delivery being executed
+    pub last_delivery: Option<(String, String, Vec<u8>, Vec<u8>)>,
     pub fk_meta: String,
     pub accts: Vec<String>,
     pub fresh: u32,
@@ -71,6 +73,7 @@ impl ItsBinder {
             ids: BTreeMap::new(),
             idcheck: "ok".into(),
             wasm_hash: None,
+            last_delivery: None,
             fk_meta: jstr(init, "fkMeta"),
             accts: { let mut a = jstrs(inst, "Accts"); a.sort(); a },
             fresh: 0,
@@ -172,6 +175,19 @@ impl ItsBinder {
                 }
                 if first == other {
                     problems.push(format!("{} does not depend on the chain name", idn));
+                }
+                // the id view is domain-separated by its `sender` argument as well (the service itself uses the zero
+                // address): another sender with the same deploy salt must get another id
+                let its_addr = b.its.clone();
+                let dsalt: Option<BytesN<32>> = b.g.cx.query(&its_addr, "interchain_token_deploy_salt", svec![&env, da.into_val(&env), b.salt(s).into_val(&env)]);
+                if let Some(dsalt) = dsalt {
+                    let stranger = b.g.cx.addr("idview_stranger");
+                    let v1: Option<BytesN<32>> = b.g.cx.query(&its_addr, "interchain_token_id", svec![&env, da.into_val(&env), dsalt.into_val(&env)]);
+                    let v2: Option<BytesN<32>> = b.g.cx.query(&its_addr, "interchain_token_id", svec![&env, stranger.into_val(&env), dsalt.into_val(&env)]);
+                    let (v1, v2) = (v1.map(|x| x.to_array()), v2.map(|x| x.to_array()));
+                    if v1 == Some(first) || v2 == Some(first) || v1 == v2 {
+                        problems.push(format!("{} : the id view ignores its sender argument", idn));
+                    }
                 }
                 b.ids.insert(idn.as_str().unwrap().to_string(), first);
             }
@@ -480,9 +496,30 @@ impl ItsBinder {
                     _ => out.push(json!({"k": name})),
                 }
             } else if name == "token_executed" {
-                let id = t.get(1).and_then(|v| BytesN::<32>::try_from_val(&env, &v).ok()).map(|b| self.id_name(&b.to_array())).unwrap_or_default();
-                let amt = i128::try_from_val(&env, d).unwrap_or(-999);
-                out.push(json!({"k": "token_executed", "app": self.g.cx.name_of(c), "id": id, "amt": amt as i64}));
+                let idb = t.get(1).and_then(|v| BytesN::<32>::try_from_val(&env, &v).ok());
+                let id = idb.as_ref().map(|b| self.id_name(&b.to_array())).unwrap_or_default();
+                let full = <(i128, SStr, SStr, Bytes, Bytes, Address)>::try_from_val(&env, d).ok();
+                let amt = full.as_ref().map(|x| x.0).unwrap_or(-999);
+                let mut e = json!({"k": "token_executed", "app": self.g.cx.name_of(c), "id": id, "amt": amt as i64});
+                // the arguments handed to the application must be the delivered ones: origin chain, message id, sender,
+                // data, and the address of the token that was actually credited
+                let mut bad: Vec<&str> = vec![];
+                match (&full, self.last_delivery.clone()) {
+                    (Some((_, ch, mid, src, data, tok)), Some((xch, xmid, xsrc, xdata))) => {
+                        if sstr_to_string(ch) != xch { bad.push("source_chain"); }
+                        if sstr_to_string(mid) != xmid { bad.push("message_id"); }
+                        if bytes_to_vec(src) != xsrc { bad.push("source_address"); }
+                        if bytes_to_vec(data) != xdata { bad.push("payload"); }
+                        let its = self.its.clone();
+                        let reg: Option<Address> = idb.as_ref().and_then(|b| self.g.cx.query(&its, "token_address", svec![&env, b.into_val(&env)]));
+                        if reg.as_ref() != Some(tok) { bad.push("token_address"); }
+                    }
+                    _ => bad.push("unreadable"),
+                }
+                if !bad.is_empty() {
+                    e["bad_args"] = json!(bad);
+                }
+                out.push(e);
             }
         }
         out
@@ -546,6 +583,7 @@ impl ItsBinder {
     }
 
     pub fn exec(&mut self, act: &J) -> Obs {
+        self.g.cx.set_argdrop(act);
         let env = self.g.cx.env.clone();
         let name = jstr(act, "name");
         let its = self.its.clone();
@@ -691,6 +729,8 @@ impl ItsBinder {
             }
             "Execute" => {
                 let (m, payload) = self.delivery_message(act["d"].as_str().unwrap());
+                let pname = self.inst["Deliveries"][act["d"].as_str().unwrap()]["payload"].as_str().unwrap().to_string();
+                self.note_delivery(&pname, &sstr_to_string(&m.message_id));
                 let args: SVec<Val> = svec![&env, m.source_chain.into_val(&env), m.message_id.into_val(&env), m.source_address.into_val(&env), payload.into_val(&env)];
                 let r = self.g.cx.call_auth(&[], &its, "execute", args);
                 self.finish(r, unit())
@@ -714,6 +754,8 @@ impl ItsBinder {
                 if let Err(e) = ar {
                     return Obs { ok: false, ret: json!("none"), ev: vec![], err: format!("approval failed: {e}") };
                 }
+                let pname = act["payload"].as_str().unwrap().to_string();
+                self.note_delivery(&pname, &format!("fresh-{}", self.fresh));
                 let args: SVec<Val> = svec![&env, m.source_chain.into_val(&env), mid.into_val(&env), m.source_address.into_val(&env), Bytes::from_slice(&env, &payload).into_val(&env)];
                 let r = self.g.cx.call_auth(&[], &its, "execute", args);
                 self.finish(r, unit())
@@ -753,6 +795,10 @@ impl ItsBinder {
                 let r = self.g.cx.call_auth(&auths, &ex, "send", args);
                 self.finish(r, unit())
             }
+            "HookOpenWindow" => {
+                env.as_contract(&its, || axelar_soroban_std::interfaces::verif_open_migration_window(&env));
+                Obs { ok: true, ret: unit(), ev: vec![], err: String::new() }
+            }
             "SetFakeMeta" => {
                 self.fk_meta = jstr(act, "meta");
                 self.apply_fk_meta();
@@ -777,6 +823,21 @@ impl ItsBinder {
             }
         }
         id.to_string()
+    }
+
+    /// remember what the delivery being executed says (for the check of the arguments handed to a receiving app)
+    fn note_delivery(&mut self, pname: &str, mid: &str) {
+        let p = self.inst["Payloads"][pname].clone();
+        self.last_delivery = if p["inner"] == json!("transfer") {
+            Some((
+                p["origin"].as_str().unwrap_or("").to_string(),
+                mid.to_string(),
+                self.party_bytes(p["sender"].as_str().unwrap_or("none")),
+                Self::data_bytes(p["data"].as_str().unwrap_or("none")),
+            ))
+        } else {
+            None
+        };
     }
 
     fn scoped(act: &J) -> Vec<String> {
